@@ -126,22 +126,18 @@ found:
 		return errors.New("index: attempt to add record out of position sort order")
 	}
 	i.LastRecord = r.Start()
-	eiv := r.End() / TileWidth
-	if eiv == len(ref.Intervals) {
-		if eiv > biv {
-			panic("index: unexpected alignment length")
-		}
-		ref.Intervals = append(ref.Intervals, c.Begin)
-	} else if eiv > len(ref.Intervals) {
-		intvs := make([]bgzf.Offset, eiv)
+	// eiv is the last tile overlapped by the half-open interval [Start, End).
+	eiv := biv
+	if r.End() > r.Start() {
+		eiv = (r.End() - 1) / TileWidth
+	}
+	if eiv >= len(ref.Intervals) {
+		intvs := make([]bgzf.Offset, eiv+1)
 		if len(ref.Intervals) > biv {
 			biv = len(ref.Intervals)
 		}
-		for iv, offset := range intvs[biv:eiv] {
-			if !isZero(offset) {
-				panic("index: unexpected non-zero offset")
-			}
-			intvs[iv+biv] = c.Begin
+		for iv := biv; iv <= eiv; iv++ {
+			intvs[iv] = c.Begin
 		}
 		copy(intvs, ref.Intervals)
 		ref.Intervals = intvs
